@@ -22,7 +22,9 @@
    Several values bound to one parameter ( *args, **kwargs, `unite_values(star_args,
    star_kwargs)`) are ONE lower bound for a parameter annotated T_k: their
    union (pyanalyze turns the tuple / dict of collected arguments into
-   tuple[union, ...] / dict[str, union] first).  A default contributes its
+   tuple[union, ...] / dict[str, union] first; when nothing was collected the
+   element type is Any, so an unused `*args: T` contributes the lower bound Any
+   and T is solved to Any unless another argument gives a lower bound).  A default contributes its
    lower bound when it fits the declaration and nothing otherwise, and is never
    reported.
 
@@ -164,7 +166,7 @@ Section CallModel.
         match av_values vs with
         | None => None
         | Some l => match unite_all l with
-                    | None => Some []
+                    | None => lower_gen s k (any_generic O)   (* an empty *args / **kwargs: its element type is Any *)
                     | Some u => lower_gen s k u
                     end
         end
